@@ -81,10 +81,14 @@ class World:
 
         return SS()
 
+    resume_hook = None      # fn(ch): called from inside resume_writing()
+
     def _on_pause(self, chan, what):
         for ch, c in self.schan.items():
             if c is chan:
                 self.pause_calls[ch].append(what)
+                if what == 'resume' and self.resume_hook is not None:
+                    self.resume_hook(ch)
 
     def start(self):
         w = self
@@ -551,10 +555,30 @@ def record_natural(seed, chans, initwin, pktsize, nwrites=6, maxwrite=None,
                     dict(extra or {}, sp=selfpause[ch] - sp0, rb0=rb0,
                          snap=snap)))
 
+    def on_resume(ch):
+        # a session that acts from INSIDE resume_writing(): it writes the
+        # next piece at once and, now and then, ends the stream right there
+        if p.lost or w.eof_sent[ch]:
+            return
+        n = rng.randint(1, maxwrite)
+        k0 = len(written[ch][0])
+        data = bytes(unit_byte(ch, 0, k0 + i + 1) for i in range(n))
+        written[ch][0] += data
+        app('write', ch, w.schan[ch].write, data, extra={'dt': 0, 'n': n})
+        if rng.random() < 0.5:
+            w.eof_sent[ch] = True
+            app('eof', ch, w.schan[ch].write_eof)
+
+    if 'reent' in mode:
+        w.resume_hook = on_resume
+
     async def writer(ch):
         for _ in range(nwrites):
             await asyncio.sleep(rng.choice([0, 0, 0.001, 0.003, 0.01]))
             if p.lost:
+                return
+            if w.eof_sent[ch]:
+                done_writing[ch] = True
                 return
             dt = rng.choice([0, 0, 1])
             n = rng.randint(1, maxwrite)
@@ -564,7 +588,7 @@ def record_natural(seed, chans, initwin, pktsize, nwrites=6, maxwrite=None,
             fn = w.schan[ch].write if dt == 0 else w.schan[ch].write_stderr
             app('write', ch, fn, data, extra={'dt': dt, 'n': n})
         await asyncio.sleep(rng.choice([0, 0.002]))
-        if not p.lost:
+        if not p.lost and not w.eof_sent[ch]:
             w.eof_sent[ch] = True
             app('eof', ch, w.schan[ch].write_eof)
         done_writing[ch] = True
@@ -679,7 +703,10 @@ def record_natural(seed, chans, initwin, pktsize, nwrites=6, maxwrite=None,
                         f'{initwin + adj_got[e["ch"]]}')
     for e in ev:
         e.pop('_seen', None)
-    l1 = list(win_bad[:3])
+    # (with sessions writing from inside resume_writing() the per-step
+    # window bookkeeping above is not valid: a nested write is logged before
+    # the adjust that made room for it)
+    l1 = [] if 'reent' in mode else list(win_bad[:3])
     for ch in chans:
         for dt in (0, 1):
             got, want = bytes(w.rx[ch][dt]), bytes(written[ch][dt])
